@@ -353,26 +353,25 @@ def file_bytes(spec):
 _CUSTOM = {}
 
 
-def custom_buffer():
-    """a delimited buffer made by the public `get_bufferclass_for_datatype` for a table with List[bool] / List[int] /
-    List[float] / Optional columns (the three `_parse_split_fields` paths, sep '' and ',')"""
-    if "buf" not in _CUSTOM:
+COLTYPES = ["str", "bools", "ints", "floats", "int", "float", "optfloat"]
+
+
+def custom_buffer(cols=None, header=False):
+    """a delimited buffer made by the public `get_bufferclass_for_datatype` for a table whose columns are ANY selection (one
+    column, several, any order) of: str, List[bool], List[int], List[float], int, float, Optional[float] — the three
+    `_parse_split_fields` paths (sep '' and ','), also as the only / the last / a middle column"""
+    cols = tuple(cols or COLTYPES)
+    if header:
+        cols = cols + ("header",)
+    if cols not in _CUSTOM:
         from typing import List, Optional
         bnp = B()
-        from bionumpy.bnpdataclass import bnpdataclass
-
-        @bnpdataclass
-        class CustomRow:
-            name: str
-            flags: List[bool]
-            counts: List[int]
-            weights: List[float]
-            x: int
-            y: float
-            z: Optional[float]
-        _CUSTOM["cls"] = CustomRow
-        _CUSTOM["buf"] = bnp.io.get_bufferclass_for_datatype(CustomRow)
-    return _CUSTOM["buf"]
+        from bionumpy.bnpdataclass.bnpdataclass import make_dataclass
+        types = {"str": str, "bools": List[bool], "ints": List[int], "floats": List[float], "int": int, "float": float, "optfloat": Optional[float]}
+        real = [c for c in cols if c != "header"]
+        cls = make_dataclass([("c%d_%s" % (i, c), types[c]) for i, c in enumerate(real)], "Custom_" + "_".join(cols))
+        _CUSTOM[cols] = bnp.io.get_bufferclass_for_datatype(cls, has_header=header)
+    return _CUSTOM[cols]
 
 
 def build_file(spec):
@@ -385,7 +384,7 @@ def build_file(spec):
     try:
         kw = {}
         if spec.get("buffer") == "custom":
-            kw["buffer_type"] = custom_buffer()
+            kw["buffer_type"] = custom_buffer(spec.get("cols"), bool(spec.get("header")))
         elif spec.get("buffer"):
             kw["buffer_type"] = _bufcls(spec["buffer"])
         if spec.get("chunk"):
@@ -1079,14 +1078,31 @@ def file_spec(rng, fmt=None):
                  for c, a, b in rows]
         spec["text"] = _finish(rng, lines, nl)
     elif fmt == "tsv":
-        lines = []
-        for i in range(n):
-            k = rng.choice([1, 2, 3])
-            lines.append("\t".join([rng.choice(["r%d" % i, "-4", "+2"]), "".join(rng.choice("01") for _ in range(rng.choice([1, 3, 4]))),
-                                    ",".join(rng.choice(["-3", "+5", "12", "0"]) for _ in range(k)),
-                                    ",".join(rng.choice(["-1.5", "2e-3", "7", "+0.25"]) for _ in range(rng.choice([1, 2]))),
-                                    rng.choice(["-7", "+3", "15"]), rng.choice(["-2.5", "1e3", "4"]), rng.choice([".", "-0.5", "3e-2"])]))
+        # a custom table: 1..4 columns drawn from the type pool (single list-valued columns included), or all seven
+        r_ = rng.random()
+        cols = (list(COLTYPES) if r_ < 0.2 else [rng.choice(["ints", "floats", "bools"])] if r_ < 0.5
+                else [rng.choice(COLTYPES) for _ in range(rng.choice([1, 2, 3, 4]))])
+
+        def cell(kind, i):
+            if kind == "str":
+                return rng.choice(["r%d" % i, "-4", "+2"])
+            if kind == "bools":
+                return "".join(rng.choice("01") for _ in range(rng.choice([1, 3, 4])))
+            if kind == "ints":
+                return ",".join(rng.choice(["-3", "+5", "12", "0", "400"]) for _ in range(rng.choice([1, 2, 3])))
+            if kind == "floats":
+                return ",".join(rng.choice(["-1.5", "2e-3", "7", "+0.25"]) for _ in range(rng.choice([1, 2])))
+            if kind == "int":
+                return rng.choice(["-7", "+3", "15"])
+            if kind == "float":
+                return rng.choice(["-2.5", "1e3", "4"])
+            return rng.choice([".", "-0.5", "3e-2"])
+        lines = ["\t".join(cell(k, i) for k in cols) for i in range(n)]
         spec["buffer"] = "custom"
+        spec["cols"] = cols
+        if rng.random() < 0.3:
+            spec["header"] = True
+            lines = ["\t".join("c%d_%s" % (i, k) for i, k in enumerate(cols))] + lines
         spec["text"] = _finish(rng, lines, "\n")
     elif fmt == "vcf":
         samples = rng.choice([0, 0, 1, 2, 3])
@@ -1165,7 +1181,7 @@ def file_spec(rng, fmt=None):
     return spec
 
 
-FORMATS = ["bed", "bed", "bdg", "narrowPeak", "vcf", "vcf", "gff", "gtf", "sam", "fa", "fa2", "fq", "pairs", "sizes", "gfa", "bam", "tsv"]
+FORMATS = ["bed", "bed", "bdg", "narrowPeak", "vcf", "vcf", "gff", "gtf", "sam", "fa", "fa2", "fq", "pairs", "sizes", "gfa", "bam", "tsv", "tsv"]
 
 
 def gen_args(kind, rng):
@@ -2007,7 +2023,11 @@ def agree(c, got, exp):
     if not isinstance(got, dict) or "err" in got:
         return False
     if "unbuildable" in got:
-        return True
+        # arguments that cannot be constructed observe nothing: tolerated only for the zero-row variant and for the known
+        # reader limitation (a gff/gtf file with interior comment lines read with a chunk size below one line); anything
+        # else means a whole argument family silently tests nothing and is reported
+        chunked_gff = any(isinstance(a, dict) and a.get("fmt") in ("gff", "gtf") and a.get("chunk") for a in c.get("args", []))
+        return c.get("variant") == "empty" or (got["unbuildable"] == "RuntimeError" and chunked_gff)
     if got.get("mutated") != [] or got.get("twice_equal") is not True:
         return False
     if "value" in exp:
@@ -2027,6 +2047,8 @@ def finding_key(c, got, exp):
     name = c.get("fn", c["op"])
     if isinstance(got, dict) and "err" in got:
         return f"{name}:{got['err']}"
+    if isinstance(got, dict) and "unbuildable" in got:
+        return f"{name}:arguments-could-not-be-built:{got['unbuildable']}"
     if isinstance(got, dict) and got.get("mutated"):
         if all(str(m).startswith("result-depends") for m in got["mutated"]):
             return f"{name}:result-depends-on-earlier-call"
@@ -2049,6 +2071,10 @@ PROBES = [
                                       "text": "chr1\t1\t9\tn\t0\t+\t1\t9\t0,0,0\t2\t1,2,\t0,3,"}]),
     ("list_column_gz_chunks", "chunk.fields", [{"k": "file", "fmt": "bed", "gz": True, "buffer": "Bed12Buffer", "chunk": 16, "which": 0,
                                                 "text": "chr1\t1\t9\tn\t0\t+\t1\t9\t0,0,0\t2\t1,2\t0,3\nchr1\t2\t9\tn\t0\t+\t1\t9\t0,0,0\t1\t4\t0\n"}]),
+    ("single_list_column_no_final_newline", "chunk.fields", [{"k": "file", "fmt": "tsv", "gz": False, "buffer": "custom", "cols": ["ints"],
+                                                              "text": "10,20,30\n7\n1,2\n400,5"}]),
+    ("single_float_list_column_gz_chunks", "chunk.fields", [{"k": "file", "fmt": "tsv", "gz": True, "buffer": "custom", "cols": ["floats"], "chunk": 8,
+                                                             "which": 0, "text": "1.5,2e-3\n-7\n0.25,3\n4\n"}]),
     ("GenotypeRowEncoding.encode", "GenotypeRowEncoding.encode", [_strs(["0/1\t1/1\n", "0|0\t./.\n"])]),
     ("PhasedGenotypeRowEncoding.encode", "PhasedGenotypeRowEncoding.encode", [_strs(["0|1\t1|1\n", "0|0\t1|0\n"])]),
     ("genotype_column", "chunk.fields", [{"k": "file", "fmt": "vcf", "gz": False, "buffer": "VCFMatrixBuffer",
@@ -2082,6 +2108,14 @@ def step_aliasing():
     data = bnp.as_encoded_array("chr1\t5,6\t9\n")
     g = EncodedRaggedArray(data, RaggedView2(np.array([5]), np.array([4])))
     out.append(("gather through RaggedView2 (field text of a file buffer)", sh(data, g)))
+    # fields that lie back to back in the buffer (a one-column list table, separators kept): still gathered, not sliced
+    try:
+        ch1 = build({"k": "file", "fmt": "tsv", "gz": False, "buffer": "custom", "cols": ["ints"], "text": "10,20\n7\n1,2"})
+        ex = ch1._itemgetter.buffer._buffer_extractor
+        tiled = sh(ex.data, ex.get_field_by_number(0, keep_sep=True))
+    except AttributeError:
+        tiled = False
+    out.append(("gather of fields lying back to back (one-column list table, separators kept)", tiled))
     y = bnp.as_encoded_array(["0/1\t", "1|1\n"])
     out.append(("ragged.ravel() of contiguous data", bool(np.shares_memory(flat(y), flat(y)))))
     a = np.arange(6)
